@@ -158,7 +158,12 @@ func Harness_C08_misc() {
 		MarshalTime(time.Time{}).MarshalGQL(&buf)
 		zzsym.Assert(buf.String() == "null", "the zero time is null")
 	case 2:
-		t := time.Date(2024, 2, 29, 23, 59, 59, 123456789, time.UTC)
+		// UTC, named and anonymous fixed zones on both sides of UTC (whole and fractional hours, the extremes in use), sub-second parts, far years
+		loc := time.UTC
+		if m := []int{0, 0, 330, -210, 840, -720, 1, -1, 765}[zzsym.Choice("zone", 9)]; m != 0 || zzsym.Choice("fixedUTC", 2) == 1 {
+			loc = time.FixedZone("", m*60)
+		}
+		t := time.Date([]int{2024, 1, 1970, 9999}[zzsym.Choice("year", 4)], 2, 28, 23, 59, 59, []int{123456789, 0, 120000000}[zzsym.Choice("nanos", 3)], loc)
 		MarshalTime(t).MarshalGQL(&buf)
 		s, ok := dec().(string)
 		zzsym.Assert(ok, "a time is a JSON string")
